@@ -242,6 +242,15 @@ theorem step_good {kind : Kind} (hkind : kind ≠ .plain) {db : Db} (hinv : Inv 
       obtain ⟨r, h⟩ := ioItems_ok (hinv.sub (topItems_sublist db top)).wf; exact liftRo_good hinv _ hp (by simp [h])
     case fullItems top => exact ⟨hinv, by simp⟩
     case trim top => exact ⟨hinv.sub (eraseKeys_sublist _ _), by simp⟩
+    case bad p k =>
+      have hr := remIoVals_good hinv k
+      split
+      · exact ⟨hinv, by simp⟩
+      split
+      · cases h1 : remIoVals db k with
+        | ok pr => obtain ⟨db1, b⟩ := pr; exact ⟨hr.2 db1 b h1, by simp⟩
+        | error e => exact ⟨hinv, by simp only [ne_eq, Res.raise.injEq]; intro h; subst h; exact hr.1 h1⟩
+      · exact ⟨hinv, by simp⟩
   | ioset =>
     cases op <;> simp only [step]
     case put => exact ⟨hinv, by simp⟩
@@ -268,6 +277,15 @@ theorem step_good {kind : Kind} (hkind : kind ≠ .plain) {db : Db} (hinv : Inv 
       obtain ⟨r, h⟩ := ioItems_ok (hinv.sub (topItems_sublist db top)).wf; exact liftRo_good hinv _ hp (by simp [h])
     case fullItems top => exact ⟨hinv, by simp⟩
     case trim top => exact ⟨hinv.sub (eraseKeys_sublist _ _), by simp⟩
+    case bad p k =>
+      have hr := remIoVals_good hinv k
+      split
+      · exact ⟨hinv, by simp⟩
+      split
+      · cases h1 : remIoVals db k with
+        | ok pr => obtain ⟨db1, b⟩ := pr; exact ⟨hr.2 db1 b h1, by simp⟩
+        | error e => exact ⟨hinv, by simp only [ne_eq, Res.raise.injEq]; intro h; subst h; exact hr.1 h1⟩
+      · exact ⟨hinv, by simp⟩
 
 theorem run_good {kind : Kind} (hkind : kind ≠ .plain) (watch : List Bytes) : ∀ (ops : List Op) (db : Db), Inv db →
     Inv (run kind watch db ops).2 ∧ ∀ x ∈ (run kind watch db ops).1, x.1 ≠ .raise .valueError
